@@ -49,6 +49,14 @@ type rtSock struct {
 	blockPid int
 	unblock  chan struct{}
 	blocked  chan struct{}
+	// the acknowledgement of requests carrying telegram slowPid is handed over slowAck later; the first
+	// lazyN requests carrying telegram lazyPid are not seen by the gateway at all (lost on the way);
+	// txAt: the time in microseconds of every tunnelling request carrying lazyPid
+	slowPid int
+	slowAck time.Duration
+	lazyPid int
+	lazyN   int
+	txAt    []int64
 }
 
 // rtGateway: accepts the expected sequence number (bus), acknowledges it, acknowledges a repetition
@@ -117,6 +125,17 @@ func (s *rtSock) Send(p knxnet.ServicePackable) error {
 		if s.mutePid != 0 && pidOf(f.Payload) == s.mutePid {
 			gw = nil
 		}
+		extra := time.Duration(0)
+		if s.slowPid != 0 && pidOf(f.Payload) == s.slowPid {
+			extra = s.slowAck
+		}
+		if s.lazyPid != 0 && pidOf(f.Payload) == s.lazyPid {
+			s.txAt = append(s.txAt, s.us())
+			if s.lazyN > 0 {
+				s.lazyN--
+				gw = nil
+			}
+		}
 		if gw != nil {
 			gw.seen = append(gw.seen, fmt.Sprintf("%d:%d", f.SeqNumber, pidOf(f.Payload)))
 			switch f.SeqNumber {
@@ -132,7 +151,7 @@ func (s *rtSock) Send(p knxnet.ServicePackable) error {
 		if ack != nil {
 			go func() {
 				defer func() { recover() }()
-				time.Sleep(300 * time.Microsecond) // an exchange takes a while: other senders pile up behind it
+				time.Sleep(300*time.Microsecond + extra) // an exchange takes a while: other senders pile up behind it
 				select {
 				case s.inbound <- ack:
 				case <-time.After(2 * time.Second):
@@ -482,6 +501,60 @@ func runTunnelRT(t *testing.T, line string) string {
 	sort.Ints(ok)
 	return fmt.Sprintf("bus=%s ok=%s failed=%d seen=%s%s", strings.ReplaceAll(fmt.Sprint(sock.gw.bus), " ", ","),
 		strings.ReplaceAll(fmt.Sprint(ok), " ", ","), failed, strings.Join(sock.gw.seen, ","), stuck)
+}
+
+// runResendRT: "rsrt <ms the first acknowledgement is held back> <resend ms>": two goroutines call Send; the
+// acknowledgement of the first request arrives late, so the second Send waits for its turn; its own
+// request is then lost twice and acknowledged at the third transmission.  The resend interval starts at
+// the transmission, not at the call of Send: the time spent waiting for the other Send is not part of it.
+// Trace: tx=<us of every transmission of the second telegram> a=<ok|err> b=<ok|err>
+func runResendRT(t *testing.T, line string) string {
+	f := strings.Fields(line)
+	if len(f) != 3 {
+		return "bad-script"
+	}
+	hold, _ := strconv.Atoi(f[1])
+	resend, _ := strconv.Atoi(f[2])
+	sock := &rtSock{start: time.Now(), inbound: make(chan knxnet.Service), gw: &rtGateway{},
+		slowPid: 1, slowAck: time.Duration(hold) * time.Millisecond, lazyPid: 2, lazyN: 2}
+	tun, err := knx.VerifNewTunnel(sock, knxnet.TunnelLayerData, knx.TunnelConfig{
+		ResendInterval: time.Duration(resend) * time.Millisecond, ResponseTimeout: time.Duration(8*resend) * time.Millisecond,
+		HeartbeatInterval: time.Hour})
+	if err != nil {
+		return "connect-failed " + err.Error()
+	}
+	go func() {
+		for range tun.Inbound() {
+		}
+	}()
+	res := make(chan string, 2)
+	word := func(err error) string {
+		if err != nil {
+			return "err"
+		}
+		return "ok"
+	}
+	go func() { res <- "a=" + word(tun.Send(payload(1, false))) }()
+	time.Sleep(3 * time.Millisecond)
+	go func() { res <- "b=" + word(tun.Send(payload(2, false))) }()
+	var out []string
+	for len(out) < 2 {
+		select {
+		case r := <-res:
+			out = append(out, r)
+		case <-time.After(10 * time.Second):
+			out = append(out, "stuck")
+		}
+	}
+	sort.Strings(out)
+	tun.Close()
+	sock.mu.Lock()
+	defer sock.mu.Unlock()
+	var tx []string
+	for _, u := range sock.txAt {
+		tx = append(tx, strconv.FormatInt(u, 10))
+	}
+	return "tx=" + strings.Join(tx, ",") + " " + strings.Join(out, " ")
 }
 
 // runCloseRT: "crt <closers> <senders> <reader> <traffic>": 1..4 goroutines call Close on one tunnel at
